@@ -365,8 +365,10 @@ def judge(case, obs, t: Tally, verbose=False):
         marker = b"/r%d" % k
         chost = "c%d.origin.test" % k
         if kind == "connect":
-            fwd = any(a[0] == chost for a, _, _ in ups) or any(m["start"][0] == b"CONNECT" and m["start"][1].startswith(chost.encode()) for _, _, m in ups) \
-                or any(addr[0] == chost for addr, _, _ in obs["upstream"])
+            # forwarded = a CONNECT for it went to the upstream proxy, or bytes were written on a connection to its target
+            # (an eager TCP connect that carries nothing is not "forwarding a request")
+            fwd = any(m["start"][0] == b"CONNECT" and m["start"][1].startswith(chost.encode()) for _, _, m in ups) \
+                or any(addr[0] == chost and data for addr, _, data in obs["upstream"])
         elif kind == "socks":
             fwd = bool(obs["upstream"]) and not s["closed"]
         else:
